@@ -63,25 +63,25 @@ DistPI == {RowPI(Rows[r]) : r \in DOMAIN Rows}
 
 \* tabulated Regions and InLang: every string in which a match is looked for, its regions, and for every
 \* canonical pattern of the rows the regions that are in its language
-HayOf(tc) == {tc, DirOf(tc), DirOfSep(tc)}
-Hay == TLCEval(UNION {UNION {HayOf(DistTI[b][d].tc) : d \in DOMAIN DistTI[b]} : b \in 1..NB})
+HayOf(ti) == {ti.tc, ti.dir, ti.dirsep}
+Hay == TLCEval(UNION {UNION {HayOf(DistTI[b][d]) : d \in DOMAIN DistTI[b]} : b \in 1..NB})
 RegTab == TLCEval([h \in Hay |-> [real \in BOOLEAN |-> [lax \in BOOLEAN |-> Regions(h, real, lax)]]])
 AllRegions == TLCEval(UNION {RegTab[h][TRUE][TRUE] \cup RegTab[h][FALSE][TRUE] : h \in Hay})
 LangTab == TLCEval([pc \in {x.pi.pc : x \in DistPI} |-> {r \in AllRegions : InLang(pc, r)}])
 TabRegions(t, real, lax) == RegTab[t][real][lax]
 
 \* the verdict of every distinct (pattern info, base) against every distinct path info, per mode, and the
-\* (indices of the) paths that must match
-VerdictRow(x, mode) ==
-  LET lang == LangTab[x.pi.pc]
-      TabIn(pc, r) == r \in lang
-  IN [d \in DOMAIN DistTI[x.b] |-> VerdictWith(TabRegions, TabIn, x.pi, DistTI[x.b][d], mode)]
+\* (indices of the) paths that must match.  (Intermediate values are handed on as operator arguments: TLC
+\* evaluates an argument once, whereas a LET definition is evaluated again at every use.)
+VerdictRowIn(x, mode, lang) ==
+  LET TabIn(pc, r) == r \in lang
+  IN TLCEval([d \in DOMAIN DistTI[x.b] |-> VerdictWith(TabRegions, TabIn, x.pi, DistTI[x.b][d], mode)])
+VerdictRow(x, mode) == VerdictRowIn(x, mode, LangTab[x.pi.pc])
 MustSet(b, v) == UNION {Spelt[b][d] : d \in {e \in DOMAIN v : v[e] = "T"}}
-Table == TLCEval([x \in DistPI |->
-            LET reg == VerdictRow(x, "reg")
-                dir == IF x.pi.trail THEN VerdictRow(x, "dir") ELSE reg
-                regT == MustSet(x.b, reg)
-            IN [reg |-> reg, dir |-> dir, regT |-> regT, dirT |-> IF x.pi.trail THEN MustSet(x.b, dir) ELSE regT]])
+Entry3(reg, dir, regT, dirT) == [reg |-> reg, dir |-> dir, regT |-> regT, dirT |-> dirT]
+Entry2(x, reg, dir, regT) == Entry3(reg, dir, regT, IF x.pi.trail THEN MustSet(x.b, dir) ELSE regT)
+Entry1(x, reg) == Entry2(x, reg, IF x.pi.trail THEN VerdictRow(x, "dir") ELSE reg, MustSet(x.b, reg))
+Table == TLCEval([x \in DistPI |-> Entry1(x, VerdictRow(x, "reg"))])
 
 \* a row and a mode disagree with the specification on: miss = paths that must match and did not,
 \* extra = paths that must not match and did
@@ -90,23 +90,23 @@ Disagreement(o, mode, got, want, wantT) ==
    miss  |-> SetToSeq(wantT \ got),
    extra |-> SetToSeq({j \in got : want[TIdx[o.b][j]] = "F"})]
 
-BadOfRow(o) ==
-  LET tab == Table[RowPI(o)] IN
+BadOfRowTab(o, tab) ==
   {y \in {Disagreement(o, "reg", ToSet(o.reg), tab.reg, tab.regT),
           Disagreement(o, "dir", ToSet(o.dir), tab.dir, tab.dirT)} : y.miss # <<>> \/ y.extra # <<>>}
     \cup (IF o.split = <<>> THEN {} ELSE {[p |-> o.p, b |-> o.b, mode |-> "split", miss |-> <<>>, extra |-> <<o.split[1][1]>>]})
+BadOfRow(o) == BadOfRowTab(o, Table[RowPI(o)])
 
 Bad == UNION {BadOfRow(Rows[r]) : r \in DOMAIN Rows}
 
 \* measured coverage: per distinct (canonical pattern, class, trailing, base): verdict counts over the
 \* distinct canonical paths (mode counted twice only where it can matter, i.e. trailing patterns)
 CountOf(f, v) == Cardinality({d \in DOMAIN f : f[d] = v})
-StatOf(x) ==
-  LET tab == Table[x] IN
+StatOfTab(x, tab) ==
   [pc |-> x.pi.pc, real |-> x.pi.real, trail |-> x.pi.trail, b |-> x.b,
    t |-> CountOf(tab.reg, "T") + (IF x.pi.trail THEN CountOf(tab.dir, "T") ELSE 0),
    f |-> CountOf(tab.reg, "F") + (IF x.pi.trail THEN CountOf(tab.dir, "F") ELSE 0),
    open |-> CountOf(tab.reg, "Open") + (IF x.pi.trail THEN CountOf(tab.dir, "Open") ELSE 0)]
+StatOf(x) == StatOfTab(x, Table[x])
 
 \* raw counts over all cases of the rows (every path, both modes)
 Mult == TLCEval([b \in 1..NB |-> [d \in DOMAIN DistTI[b] |-> Cardinality(Spelt[b][d])]])
@@ -114,16 +114,16 @@ Mult == TLCEval([b \in 1..NB |-> [d \in DOMAIN DistTI[b] |-> Cardinality(Spelt[b
 RECURSIVE SumRange(_, _, _)
 SumRange(f(_), lo, hi) == IF lo > hi THEN 0 ELSE IF lo = hi THEN f(lo)
                           ELSE LET mid == (lo + hi) \div 2 IN SumRange(f, lo, mid) + SumRange(f, mid + 1, hi)
-RowCount(r, v) ==
-  LET tab == Table[RowPI(Rows[r])]
-      b == Rows[r].b
-      W(d) == (IF tab.reg[d] = v THEN Mult[b][d] ELSE 0) + (IF tab.dir[d] = v THEN Mult[b][d] ELSE 0)
+RowCountTab(tab, b, v) ==
+  LET W(d) == (IF tab.reg[d] = v THEN Mult[b][d] ELSE 0) + (IF tab.dir[d] = v THEN Mult[b][d] ELSE 0)
   IN SumRange(W, 1, Len(DistTI[b]))
+RowCount(r, v) == RowCountTab(Table[RowPI(Rows[r])], Rows[r].b, v)
 RawCount(v) == LET R(r) == RowCount(r, v) IN SumRange(R, 1, Len(Rows))
-NBad == LET N(k) == Len(SetToSeq(Bad)[k].miss) + Len(SetToSeq(Bad)[k].extra) IN SumRange(N, 1, Cardinality(Bad))
+BadSeq == SetToSeq(Bad)
+NBad == LET N(k) == Len(BadSeq[k].miss) + Len(BadSeq[k].extra) IN SumRange(N, 1, Len(BadSeq))
 
 Judge(dummy) ==
-         /\ ndJsonSerialize(IOEnv.OUT, SetToSeq(Bad))
+         /\ ndJsonSerialize(IOEnv.OUT, BadSeq)
          /\ ndJsonSerialize(IOEnv.STATS, SetToSeq({StatOf(x) : x \in DistPI}))
          /\ PrintT(<<"JUDGE", "ROWS", Len(Rows), "CASES", 2 * NT * Len(Rows), "BAD", NBad,
                      "T", RawCount("T"), "F", RawCount("F"), "OPEN", RawCount("Open")>>)
